@@ -3,6 +3,7 @@ import LyModel.Lyb.ChunkReader2
 import LyModel.Lyb.HashLemmas5
 import LyModel.Lyb.RevLemmas
 import LyModel.Lyb.JenkLemmas
+import LyModel.Lyb.ChunkSkip
 /-!
 # C01 (LYB part) — property theorems
 
@@ -89,10 +90,52 @@ example :
                                .stop]).getD [] }, []) = some ({ inp := [], frames := [] }, [[9], [4]]) := by
   decide
 
--- OPEN: lyb_skip_lands_at_end_partial — for a top-level frame (no enclosing frame) whose last chunk is not
--- `(size 0, inner > 0)`, `rskip` consumes exactly the frame.  Needs the inner-chunk oracle in `spec`
--- (number of deeper meta records per chunk), which `lyb_chunk_roundtrip` deliberately erases (`Item.erase`).
--- Executed instead: `skip` op of wb_lyb (exhaustive ≤ 5 ops + boundary sweeps) agrees with `rskip` everywhere.
+/-- the true part, reader side: for a **top-level** frame (no enclosing frame) whose chunk records carry the right
+counts (`GoodFrame`: every chunk's content is `inner × LYB_META_BYTES + size` bytes long, all chunks but the last are
+full) and whose last chunk — if it is not the only one — is not `(size 0, inner > 0)`,
+`lyb_read_start_siblings; lyb_skip_siblings; lyb_read_stop_siblings` consumes exactly the frame. -/
+theorem lyb_skip_lands_at_end_partial (P : Params) (hP : P.Ok) (cs : List (Nat × Nat × Bytes)) (hg : GoodFrame P cs)
+    (tail : Bytes) :
+    rstop (rskip P (cs.length + 1) (rstart P { inp := chunkBytes P cs ++ tail, frames := [] }))
+      = some { inp := tail, frames := [] } := by
+  cases cs with
+  | nil => exact absurd hg (by simp [GoodFrame])
+  | cons ch cs =>
+    obtain ⟨s, i, c⟩ := ch
+    cases cs with
+    | nil =>
+      obtain ⟨hs, hi, hc⟩ := hg
+      have hmeta := readMeta_ser P hP s i (Nat.le_of_lt hs) (c ++ tail)
+      rw [mod_inMax hi] at hmeta
+      simp only [chunkBytes, List.append_nil, List.append_assoc, rstart, hmeta, rskip,
+        beq_sizeMax_false hs, rread_last, ↓reduceIte]
+      rw [List.drop_drop, List.drop_left' (by omega)]
+      simp [rstop]
+    | cons ch2 cs2 =>
+      have hg' : GoodTail P ((s, i, c) :: ch2 :: cs2) := hg
+      obtain ⟨hs, hi, hc, _⟩ := hg
+      have hmeta := readMeta_ser P hP s i (Nat.le_of_eq hs) (c ++ chunkBytes P (ch2 :: cs2) ++ tail)
+      rw [mod_inMax hi] at hmeta
+      obtain ⟨j, hj⟩ := rskip_tail P hP tail (ch2 :: cs2) s i c ((ch2 :: cs2).length + 1 + 1) hg' (by omega)
+      have : rstart P { inp := chunkBytes P ((s, i, c) :: ch2 :: cs2) ++ tail, frames := [] }
+          = { inp := c ++ chunkBytes P (ch2 :: cs2) ++ tail, frames := [{ written := s, more := s == P.sizeMax, inner := i }] } := by
+        simp only [rstart]
+        rw [show chunkBytes P ((s, i, c) :: ch2 :: cs2) ++ tail
+            = Item.ser P (.hdr s i) ++ (c ++ chunkBytes P (ch2 :: cs2) ++ tail) by simp [chunkBytes, List.append_assoc], hmeta]
+      rw [this]
+      simp only [List.length_cons] at hj ⊢
+      rw [hj]
+      simp [rstop]
+
+/-- non-vacuity: a two-chunk frame `(3 bytes | 1 byte + one inner record)` with `sizeMax = 3` -/
+example : GoodFrame exP [(3, 0, [1, 2, 3]), (1, 1, [0, 0, 4])] := by
+  refine ⟨rfl, by decide, by decide, by decide, by decide, by decide, ?_⟩
+  intro h; exact absurd h (by decide)
+
+-- OPEN: writer_counts_good — the image the printer produces for a top-level frame is `chunkBytes P cs` with
+-- `GoodFrame`-shaped counts except in the F50 (a) case.  Needs the inner-chunk counts in the writer invariant
+-- (`lyb_chunk_roundtrip` erases them on purpose: the data path never reads them).  Executed instead: the `skip` op of
+-- wb_lyb (every sequence of ≤ 5 ops, boundary sweeps) agrees with `rskip` on all cases, failing ones included.
 
 /-! ## schema hashes -/
 
